@@ -15,6 +15,7 @@
 typedef struct {
     const char *name;
     int quick, pool_wait, sched_wait, nyield, with_v, setter_ext;
+    int predef; /* 0: BASIC/BASIC_WAIT by sched_wait; else ABT_sched_predef + 1 */
 } cfg_t;
 static const cfg_t cfgs[] = {
     { "BASIC_WAIT over FIFO_WAIT stacked in ES1's pool: W blocks, is released, yields "
@@ -25,6 +26,12 @@ static const cfg_t cfgs[] = {
       "twice", 0, 0, 1, 2, 0, 0 },
     { "BASIC over FIFO stacked (control): W blocks, released, yields once", 0, 0, 0, 1,
       0, 0 },
+    { "PRIO over FIFO stacked: W blocks, X releases it, W creates V and yields", 0, 0, 0,
+      1, 1, 1, ABT_SCHED_PRIO + 1 },
+    { "RANDWS over FIFO stacked: W blocks, released, W creates V and yields twice", 0, 0,
+      0, 2, 1, 0, ABT_SCHED_RANDWS + 1 },
+    { "BASIC_WAIT over FIFO_WAIT stacked: X releases W, W creates V and yields twice",
+      0, 1, 1, 2, 1, 1 },
 };
 
 static const cfg_t *C;
@@ -84,8 +91,10 @@ static void scenario(int cfg)
     ABT_pool p1 = h_main_pool(es1);
     OK(ABT_pool_create_basic(C->pool_wait ? ABT_POOL_FIFO_WAIT : ABT_POOL_FIFO,
                              ABT_POOL_ACCESS_MPMC, ABT_TRUE, &Q));
-    OK(ABT_sched_create_basic(C->sched_wait ? ABT_SCHED_BASIC_WAIT : ABT_SCHED_BASIC, 1,
-                              &Q, ABT_SCHED_CONFIG_NULL, &s));
+    ABT_sched_predef pd = C->predef ? (ABT_sched_predef)(C->predef - 1)
+                                    : C->sched_wait ? ABT_SCHED_BASIC_WAIT
+                                                    : ABT_SCHED_BASIC;
+    OK(ABT_sched_create_basic(pd, 1, &Q, ABT_SCHED_CONFIG_NULL, &s));
     OK(ABT_eventual_create(0, &EV));
 
     abtmc_window_begin();
